@@ -4,6 +4,7 @@ import LarkVerif.Props.C06
 import LarkVerif.Indenter
 import LarkVerif.LexModel
 import LarkVerif.LexTiling
+import LarkVerif.LexFast
 import LarkVerif.EarleyExec
 import LarkVerif.LRCheck
 import LarkVerif.LRComplete
